@@ -28,6 +28,9 @@ def verify_contract(world, k, use_cvc5=True):
                      'abstracted': ex.abstracted}
         if not vcs:
             rep.error = 'zero obligations generated'
+        elif not getattr(ex, 'endpoints', 0):
+            rep.error = 'engine error: no feasible path reaches a normal return of %s (vacuous contract?)' % k.qual
+        rep.stats['returns_reached'] = getattr(ex, 'endpoints', 0)
         for vc in vcs:
             rep.results.append(discharge(vc, use_cvc5))
     except (Unsupported, SpecError) as e:
